@@ -1123,6 +1123,160 @@ fn round_last_drops(seed: u64, pm: u64) -> Result<(usize, usize), String> {
     Ok((checked, n + with_upgrade as usize))
 }
 
+/// The last owner goes away (or the state is closed by the unique observable's drop) while other threads are in
+/// the middle of the subscriber API: next_now, next_ref_now, get, read, clone, a stream poll, an upgrade. The
+/// functional verdict is taken at join (everybody ends, the last value stays readable); under ThreadSanitizer and
+/// Miri the same round gives the data-race verdict for whatever the close touches without the readers' locks.
+fn round_drop_vs_readers(seed: u64, pm: u64) -> Result<(usize, usize), String> {
+    install_hook();
+    let mut rng = Rng::new(seed);
+    let inner = if small() { 3 } else { 12 };
+    let mut events = 0usize;
+    let mut nthreads = 0usize;
+    for k in 0..inner {
+        let unique = rng.chance(1, 3);
+        let readers = rng.range(1, 3);
+        nthreads = readers + 1;
+        let mut uniq: Option<eyeball::Observable<u64>> = None;
+        let mut owners: Vec<SharedObservable<u64>> = vec![];
+        let mut subs: Vec<Subscriber<u64>> = vec![];
+        let mut weak = None;
+        if unique {
+            let o = eyeball::Observable::new(5u64);
+            for _ in 0..readers {
+                subs.push(eyeball::Observable::subscribe(&o));
+            }
+            uniq = Some(o);
+        } else {
+            let o = SharedObservable::new(5u64);
+            for _ in 0..readers {
+                subs.push(o.subscribe());
+            }
+            weak = Some(o.downgrade());
+            if rng.chance(1, 2) {
+                owners.push(o.clone());
+            }
+            owners.push(o);
+        }
+        let gate = Arc::new(AtomicU64::new(0));
+        let done = Arc::new(AtomicU64::new(0));
+        let fin = Arc::new(AtomicU64::new(0));
+        let total = readers as u64 + 1;
+        let mut hs = vec![];
+        for (t, mut sub) in subs.into_iter().enumerate() {
+            let gate = gate.clone();
+            let done = done.clone();
+            let fin = fin.clone();
+            let weak = weak.clone();
+            let tseed = mix(seed, (k * 16 + t) as u64);
+            hs.push(std::thread::spawn(move || -> Result<usize, String> {
+                set_free_mode(tseed, pm);
+                let mut r = Rng::new(tseed);
+                let mut n = 0usize;
+                // whatever happens, the others are not left waiting for this thread
+                struct Fin(Arc<AtomicU64>, bool);
+                impl Drop for Fin {
+                    fn drop(&mut self) {
+                        if !self.1 {
+                            self.0.fetch_add(1, AO::SeqCst);
+                        }
+                    }
+                }
+                let mut fin_guard = Fin(fin.clone(), false);
+                gate.fetch_add(1, AO::Relaxed);
+                while gate.load(AO::Relaxed) < total {
+                    std::hint::spin_loop();
+                }
+                // keep using the subscriber until the writer thread has finished, and a little longer
+                let mut after = 0;
+                while after < 20 {
+                    if done.load(AO::Relaxed) == 1 {
+                        after += 1;
+                    }
+                    n += 1;
+                    match r.below(7) {
+                        0 => {
+                            let v = sub.next_now();
+                            if v != 5 && v != 6 {
+                                return Err(format!("[C01|C04] next_now handed out {v}, only 5 and 6 were ever stored"));
+                            }
+                        }
+                        1 => {
+                            let v = *sub.next_ref_now();
+                            if v != 5 && v != 6 {
+                                return Err(format!("[C01|C04] next_ref_now handed out {v}"));
+                            }
+                        }
+                        2 => {
+                            let _ = sub.get();
+                        }
+                        3 => {
+                            let _ = *sub.read();
+                        }
+                        4 => {
+                            let c = sub.clone();
+                            drop(c);
+                        }
+                        5 => {
+                            if let Some(w) = &weak {
+                                drop(w.upgrade());
+                            }
+                        }
+                        _ => {
+                            let _ = poll_stream_once(&mut sub);
+                        }
+                    }
+                }
+                clear_mode();
+                // wait until every reader has left its loop (another reader may still hold an upgraded handle,
+                // which is an owner)
+                fin.fetch_add(1, AO::SeqCst);
+                fin_guard.1 = true;
+                while fin.load(AO::SeqCst) < total - 1 {
+                    std::thread::yield_now();
+                }
+                // everything is over: the stream ends, the last value is still readable
+                sub.reset();
+                let (r2, _f) = poll_stream_once(&mut sub);
+                if r2 != Poll::Ready(None) {
+                    return Err(format!("[C03] every owner is gone but a subscriber that was used during the drop answers {r2:?}"));
+                }
+                if sub.get() != 6 {
+                    return Err(format!("[C03] after the end get() returns {}, the last value stored was 6", sub.get()));
+                }
+                Ok(n)
+            }));
+        }
+        let wseed = mix(seed, (k * 16 + 15) as u64);
+        let gate2 = gate.clone();
+        let writer = std::thread::spawn(move || {
+            set_free_mode(wseed, pm);
+            gate2.fetch_add(1, AO::Relaxed);
+            while gate2.load(AO::Relaxed) < total {
+                std::hint::spin_loop();
+            }
+            if let Some(mut u) = uniq {
+                eyeball::Observable::set(&mut u, 6);
+                drop(u);
+            } else {
+                owners[0].set(6);
+                drop(owners);
+            }
+            clear_mode();
+        });
+        writer.join().map_err(|_| "writer thread panicked".to_string())?;
+        done.store(1, AO::Relaxed);
+        for h in hs {
+            match h.join() {
+                Ok(Ok(n)) => events += n,
+                Ok(Err(e)) => return Err(e),
+                Err(_) => return Err("[C03|C04] a reader thread panicked while the last owner was dropped".into()),
+            }
+        }
+    }
+    Ok((events, nthreads))
+}
+
 // ---------------------------------------------------------------------------------------------
 // C04 W1: register with unique values
 
@@ -2182,6 +2336,7 @@ pub fn run_c03(p: &Params) -> Outcome {
         out.merge(run_directed("C03", C03_SCENS, p, sched_budget(p, 400, 3000)));
         out.merge(run_free_c02("C03", p, p.n(1_000, 30_000)));
         out.merge(run_rounds("C03", p, "last-drops-at-once", p.n(400, 10_000), round_last_drops));
+        out.merge(run_rounds("C03", p, "drop-vs-readers", p.n(300, 8_000), round_drop_vs_readers));
     }
     out
 }
@@ -2197,6 +2352,7 @@ pub fn run_c04(p: &Params) -> Outcome {
     // the async-lock flavour is a SharedObservable, too
     out.merge(run_rounds("C04", p, "w1-register-async", p.n(600, 20_000), round_w1_async));
     out.merge(run_rounds("C04", p, "many-waiters", p.n(300, 8_000), round_many_waiters));
+    out.merge(run_rounds("C04", p, "drop-vs-readers", p.n(300, 8_000), round_drop_vs_readers));
     out
 }
 
